@@ -23,6 +23,23 @@ SURROGATE_LABEL = "u\udc80x"
 PERSON_LABELS = {"a", "c", "e", "ä"}
 
 
+class Tag(str):
+    """a str subclass whose str() and format() texts differ from its value (as a str-mixin Enum member, a markup
+    or label class): it IS a string, so it is stored by value; it equals (and hashes like) the plain string"""
+
+    def __str__(self):
+        return "s:" + self[:]
+
+    def __format__(self, spec):
+        return format("f:" + self[:], spec)
+
+    def __repr__(self):
+        return "Tag(" + repr(self[:]) + ")"
+
+
+TAG_LABELS = {"b", "d", "名☃"}
+
+
 class Person:
     kind = "human"  # an ordinary attribute of the data object (visible as node.kind with forward_attrs=True)
 
@@ -197,7 +214,7 @@ class Profile:
             return self.pool[label]
         n = self.name
         if n in ("str", "typed_str", "typed_str_chk"):
-            d = label
+            d = Tag(label) if label in TAG_LABELS else label
         elif n == "obj_falsy":
             d = FalsyItem(label, guid="f-" + label)
         elif n in ("obj", "obj_pop", "obj_fwd", "derived", "typed_obj", "typed_derived"):
@@ -400,6 +417,13 @@ def with_duplicate(vm, k):
     return out
 
 
+def with_padding(vm, n):
+    """a long value list (the caller may list values that do not occur): the indexes in use get 2-4 digits"""
+    if not n or not isinstance(vm, dict):
+        return vm
+    return {k: [f"pad-{i}" for i in range(n)] + list(v) for k, v in vm.items()}
+
+
 COMPRESSIONS = [False, True, zipfile.ZIP_STORED, zipfile.ZIP_DEFLATED, zipfile.ZIP_BZIP2, zipfile.ZIP_LZMA]
 
 
@@ -411,6 +435,7 @@ def save_tree(tree, profile, cfg, tmpdir, tag):
     vm = resolve_value_map(cfg.get("value_map", True), tree, profile)
     if cfg.get("value_map_dup") is not None:
         vm = with_duplicate(vm, cfg["value_map_dup"])
+    vm = with_padding(vm, cfg.get("value_map_pad"))
     if vm is not True:
         kw["value_map"] = vm
     m = profile.save_mapper()
@@ -440,8 +465,13 @@ def save_tree(tree, profile, cfg, tmpdir, tag):
             tree.save(fp, **kw)
         return (target, path, kw)
     buf = io.StringIO()
+    if target == "stringio-offset":
+        buf.write(STREAM_PREFIX)  # the stream is the caller's: the tree document starts where the stream stands
     tree.save(buf, **kw)
-    return ("text", buf.getvalue(), kw)
+    return ("text", buf.getvalue()[len(STREAM_PREFIX) if target == "stringio-offset" else 0:], kw)
+
+
+STREAM_PREFIX = "#application header: 1 tree follows\n"
 
 
 PRELOAD_DOC = json.dumps({
@@ -469,6 +499,10 @@ def load_tree(profile, src, src_tree, cfg, file_meta):
     if kind in ("file", "file-ascii"):
         with open(val, "r", encoding="utf8" if kind == "file" else "ascii") as fp:
             return cls.load(fp, **kw)
+    if target == "stringio-offset":
+        stream = io.StringIO(STREAM_PREFIX + val)
+        stream.seek(len(STREAM_PREFIX))
+        return cls.load(stream, **kw)
     return cls.load(io.StringIO(val), **kw)
 
 
@@ -517,7 +551,7 @@ def config(draw, profile_name):
         cfg["value_map"] = draw(st.lists(st.sampled_from(cand), min_size=1, max_size=len(cand), unique=True)) if cand else True
         if cand and draw(st.sampled_from([0, 0, 1])):
             cfg["value_map_dup"] = draw(st.integers(0, 5))  # the caller's list names one value twice
-    cfg["target"] = draw(st.sampled_from(["str", "path", "file", "stringio", "file-ascii"]))
+    cfg["target"] = draw(st.sampled_from(["str", "path", "file", "stringio", "file-ascii", "stringio-offset"]))
     if cfg["target"] in ("str", "path"):
         cfg["compression"] = draw(st.sampled_from(COMPRESSIONS))
         if cfg["compression"] is False and draw(st.booleans()):
@@ -526,6 +560,8 @@ def config(draw, profile_name):
         cfg["meta"] = draw(st.sampled_from([{"foo": "bar"}, {"n": 1, "ünï": "cödé"}, {"x": [1, 2], "y": None}, {"$comment": "mine", "US$": 5}]))
         if draw(st.sampled_from([0, 0, 1])):
             cfg["presave"] = True
+    if isinstance(cfg.get("value_map"), list) and draw(st.sampled_from([0, 0, 1])):
+        cfg["value_map_pad"] = draw(st.sampled_from([9, 10, 100, 101, 1000]))
     if draw(st.sampled_from([0, 0, 0, 1])):
         cfg["preload"] = True
     if draw(st.sampled_from([0, 0, 1])):
